@@ -77,7 +77,8 @@ def gen_exact(r, k):
         nsteps -= 1
     return {"kind": kind, "n": n, "L": L, "nref": nref, "nsteps": max(1, nsteps), "dtden": r.choice([8, 16, 32]),
             "seed": r.randrange(2 ** 30), "deph": r.choice(["Lorentzian", "Gaussian"]), "stride": r.choice([1, 2]),
-            "nb": r.choice([1, 2]), "cut": r.random() < 0.4}
+            "nb": r.choice([1, 2]), "cut": r.random() < 0.4, "nrefkw": r.random() < 0.5,
+            "decimal": r.choice([None, None, [0.2, 3], [0.1, 3], [0.1, 6], [0.1, 7], [0.3, 2], [0.7, 3]])}
 
 
 def make_system(c):
@@ -114,6 +115,15 @@ def int_tensor(K, Lm):
 
 def method_of(L):
     return {2: "short-exp-2", 4: "short-exp-4", 6: "short-exp-6"}[L]
+
+
+def propagate_dm(prop, rho, L, nref, via_kw):
+    """the refinement is requested either on the propagator (setDtRefinement) or per call (propagate(..., Nref=k))"""
+    if nref > 1 and via_kw:
+        return prop.propagate(rho, method=method_of(L), Nref=nref)
+    if nref > 1:
+        prop.setDtRefinement(nref)
+    return prop.propagate(rho, method=method_of(L))
 
 
 def run_exact(chk, c, items, meta):
@@ -167,9 +177,7 @@ def run_exact(chk, c, items, meta):
             HH = np.array(ham.get_RWA_data())
             Om = np.array(ham.get_RWA_skeleton())
             prop = qr.ReducedDensityMatrixPropagator(ta, ham)
-            if nref > 1:
-                prop.setDtRefinement(nref)
-            ev = prop.propagate(qr.ReducedDensityMatrix(data=rho0.copy()), method=method_of(L))
+            ev = propagate_dm(prop, qr.ReducedDensityMatrix(data=rho0.copy()), L, nref, c.get('nrefkw', False))
             out = np.array(ev.data)
             if not ev.is_in_rwa:
                 chk.violation("rwa:flag", "propagation with an RWA Hamiltonian does not mark the evolution as being in RWA", "monitor", c)
@@ -200,9 +208,7 @@ def run_exact(chk, c, items, meta):
             pk = "PHam"
         elif kind == "ham":
             prop = qr.ReducedDensityMatrixPropagator(ta, ham)
-            if nref > 1:
-                prop.setDtRefinement(nref)
-            ev = prop.propagate(qr.ReducedDensityMatrix(data=rho0.copy()), method=method_of(L))
+            ev = propagate_dm(prop, qr.ReducedDensityMatrix(data=rho0.copy()), L, nref, c.get('nrefkw', False))
             out = np.array(ev.data)
         elif kind in ("tensor", "tensor_deph"):
             RR = int_tensor(K, Lm)
@@ -214,9 +220,7 @@ def run_exact(chk, c, items, meta):
                 from quantarhei.qm.liouvillespace.puredephasing import PureDephasing
                 pd = PureDephasing(drates=gam.copy(), dtype=c["deph"])
             prop = qr.ReducedDensityMatrixPropagator(ta, ham, RTensor=RT, PDeph=pd)
-            if nref > 1:
-                prop.setDtRefinement(nref)
-            ev = prop.propagate(qr.ReducedDensityMatrix(data=rho0.copy()), method=method_of(L))
+            ev = propagate_dm(prop, qr.ReducedDensityMatrix(data=rho0.copy()), L, nref, c.get('nrefkw', False))
             out = np.array(ev.data)
             pk, Rl = "PTensor", cm.clist([q4(RR)])
             if pd is not None:
@@ -238,9 +242,7 @@ def run_exact(chk, c, items, meta):
             Ld = np.conj(np.transpose(Lm, (0, 2, 1)))
             LF.Km, LF.Lm, LF.Ld = K.copy(), Lm.copy(), Ld.copy()
             prop = qr.ReducedDensityMatrixPropagator(ta, ham, RTensor=LF)
-            if nref > 1:
-                prop.setDtRefinement(nref)
-            ev = prop.propagate(qr.ReducedDensityMatrix(data=rho0.copy()), method=method_of(L))
+            ev = propagate_dm(prop, qr.ReducedDensityMatrix(data=rho0.copy()), L, nref, c.get('nrefkw', False))
             out = np.array(ev.data)
             pk, Kl, Ll, Ldl = "POps", q3(K), q3(Lm), q3(Ld)
             # C07 in the small: the tensor form gives the same stored states
@@ -248,9 +250,7 @@ def run_exact(chk, c, items, meta):
             LT.Km, LT.Lm, LT.Ld = K.copy(), Lm.copy(), Ld.copy()
             LT.convert_2_tensor()
             prop2 = qr.ReducedDensityMatrixPropagator(ta, ham, RTensor=LT)
-            if nref > 1:
-                prop2.setDtRefinement(nref)
-            out2 = np.array(prop2.propagate(qr.ReducedDensityMatrix(data=rho0.copy()), method=method_of(L)).data)
+            out2 = np.array(propagate_dm(prop2, qr.ReducedDensityMatrix(data=rho0.copy()), L, nref, c.get('nrefkw', False)).data)
             if np.max(np.abs(out2 - out)) > 1e-10 * float(np.max(np.abs(out))):
                 chk.violation("forms:dynamics_differ", "operator form and tensor form give different propagated states (%g) for case %s"
                               % (np.max(np.abs(out2 - out)), json.dumps(c)), "monitor", c)
@@ -261,7 +261,17 @@ def run_exact(chk, c, items, meta):
             sysstep = float(dtref) / stride
             ntens = nsteps * nref * stride + 2
             cutidx = None
-            if c.get("cut") and nref == 1 and nsteps >= 2:
+            if c.get("decimal"):
+                # decimal steps: the ratio propagation step / bath step is not exactly representable (0.6/0.2 = 2.9999999999999996);
+                # the code must still find the right number of bath steps per propagation step
+                sysstep, m_ = c["decimal"]
+                nref = c["nref"] = [d_ for d_ in (1, 2, 3, 6) if m_ % d_ == 0 and d_ <= 3][r.randrange(len([d_ for d_ in (1, 2, 3, 6) if m_ % d_ == 0 and d_ <= 3]))]
+                stride = m_ // nref
+                nsteps = c["nsteps"] = min(nsteps, max(1, 4 // nref))
+                ta = qr.TimeAxis(0.0, nsteps + 1, round(m_ * sysstep, 10))
+                dtref = cm.frac(sysstep * stride)          # the float the code computes: dt = sysstep*stride
+                ntens = nsteps * nref * stride + 2
+            elif c.get("cut") and nref == 1 and nsteps >= 2:
                 # a tensor with a cut-off time holds values up to the cut-off only; the propagation goes on with the last one
                 stride, sysstep = 1, float(dtref)
                 cutidx = r.choice([2, nsteps]) if nsteps > 2 else 2
@@ -283,9 +293,7 @@ def run_exact(chk, c, items, meta):
             RT.data = tens.copy()
             RT._data_initialized = True
             prop = qr.ReducedDensityMatrixPropagator(ta, ham, RTensor=RT)
-            if nref > 1:
-                prop.setDtRefinement(nref)
-            ev = prop.propagate(qr.ReducedDensityMatrix(data=rho0.copy()), method=method_of(L))
+            ev = propagate_dm(prop, qr.ReducedDensityMatrix(data=rho0.copy()), L, nref, c.get('nrefkw', False))
             out = np.array(ev.data)
             pk, Rl, cutoff = "PTdTensor", q5(tens), ntens
             chk.count("exact:td %s" % ("with cut-off" if cutidx is not None else "no cut-off"))
@@ -358,7 +366,7 @@ def float_monitors(chk, tier):
         L = int(rs.choice([2, 4, 6]))
         nref = int(rs.choice([1, 2, 5]))
         kind = ["lindblad_ops", "lindblad_tensor", "closed", "rwa"][k % 4]
-        c = {"kind": "float:" + kind, "n": n, "L": L, "nref": nref, "k": k}
+        c = {"kind": "float:" + kind, "n": n, "L": L, "nref": nref, "k": k, "nref_via_keyword": k % 8 < 4}
         try:
             with contextlib.redirect_stdout(io.StringIO()):
                 Hm = rs.randn(n, n) * 0.05
@@ -382,9 +390,7 @@ def float_monitors(chk, tier):
                     sbi = SystemBathInteraction(sys_operators=[Operator(data=K_.copy()) for K_ in Ks], rates=rates)
                     LF = LindbladForm(ham, sbi, as_operators=(kind == "lindblad_ops"))
                     prop = qr.ReducedDensityMatrixPropagator(ta, ham, RTensor=LF)
-                    if nref > 1:
-                        prop.setDtRefinement(nref)
-                    out = np.array(prop.propagate(qr.ReducedDensityMatrix(data=rho0.copy()), method=method_of(L)).data)
+                    out = np.array(propagate_dm(prop, qr.ReducedDensityMatrix(data=rho0.copy()), L, nref, k % 8 < 4).data)
                     G = liouvillian(Hm, gksl_tensor(Ks, rates))
                     for i in range(out.shape[0]):
                         b = bound(G, dtref, L, i * nref, float(np.linalg.norm(rho0)))
@@ -405,12 +411,10 @@ def float_monitors(chk, tier):
                 elif kind == "closed":
                     ham = qr.Hamiltonian(data=Hm.copy())
                     prop = qr.ReducedDensityMatrixPropagator(ta, ham)
-                    if nref > 1:
-                        prop.setDtRefinement(nref)
                     psi0 = rs.randn(n) + 1j * rs.randn(n)
                     psi0 = psi0 / np.linalg.norm(psi0)
                     rp = np.outer(psi0, psi0.conj())
-                    out = np.array(prop.propagate(qr.ReducedDensityMatrix(data=rp.copy()), method=method_of(L)).data)
+                    out = np.array(propagate_dm(prop, qr.ReducedDensityMatrix(data=rp.copy()), L, nref, k % 8 < 4).data)
                     from quantarhei.qm.propagators.svpropagator import StateVectorPropagator
                     sp = StateVectorPropagator(ta, ham)
                     if nref > 1:
@@ -602,6 +606,9 @@ def main():
         corpus = [{"kind": "td", "n": 2, "L": 4, "nref": 1, "nsteps": 4, "dtden": 16, "seed": 11, "deph": "Lorentzian", "stride": 1, "nb": 1, "cut": True},
                   {"kind": "td", "n": 2, "L": 2, "nref": 1, "nsteps": 3, "dtden": 8, "seed": 12, "deph": "Lorentzian", "stride": 1, "nb": 2, "cut": True},
                   {"kind": "rwa", "n": 2, "L": 2, "nref": 1, "nsteps": 1, "dtden": 16, "seed": 219917864, "deph": "Lorentzian", "stride": 2, "nb": 1}]
+        corpus += [{"kind": "td", "n": 2, "L": 2, "nref": 1, "nsteps": 2, "dtden": 16, "seed": 13, "deph": "Lorentzian", "stride": 1, "nb": 1, "cut": False, "decimal": [0.2, 3]},
+                   {"kind": "td", "n": 2, "L": 4, "nref": 3, "nsteps": 1, "dtden": 16, "seed": 14, "deph": "Lorentzian", "stride": 1, "nb": 1, "cut": False, "decimal": [0.1, 3], "nrefkw": True},
+                   {"kind": "td", "n": 2, "L": 2, "nref": 1, "nsteps": 2, "dtden": 16, "seed": 15, "deph": "Lorentzian", "stride": 1, "nb": 2, "cut": False, "decimal": [0.1, 7]}]
         cases = corpus + cases
     for c in cases:
         try:
